@@ -633,6 +633,11 @@ def _eval_call(entry, call, mode):
             o = entry.build(True if entry.has_jit else None)
             entry.hist(o)
             r = jax.jit(getf(o))(*args)
+        elif mode == "sibling-history":
+            # the history stream on ANOTHER object of the same kind, then the probe on a new object: only state
+            # outside the objects (module / class level) can make this differ
+            entry.hist(entry.build(None))
+            r = getf(entry.build(None))(*args)
         elif mode == "jit-then-eager":
             o = entry.build(None)
             f = getf(o)
@@ -653,8 +658,8 @@ KNOWN_MODES = [
     ("linop-lazy-adjoint-tracer-leak", lambda n: n.startswith("LinearOperator(eval_fn)/"), {"adj", "gram"}, {"jit-then-eager"}, "UnexpectedTracerError"),
     ("setdistance-prox-jit", lambda n: n.startswith("SetDistance/"), {"prox"}, {"jit", "jit-then-eager", "history+jit"}, "TracerBoolConversionError"),
     ("proxavg-eval-jit", lambda n: n.startswith("ProximalAverage/"), {"eval"}, {"jit", "jit-then-eager", "history+jit"}, "TracerBoolConversionError"),
-    ("sql2sqabs-prox-jit", lambda n: n.startswith("SquaredL2SquaredAbsLoss/"), {"prox"}, {"jit", "jit-then-eager"}, "TracerBoolConversionError"),
-    ("sql2loss-cg-prox-jit", lambda n: n.startswith("SquaredL2Loss(Matrix)/"), {"prox"}, {"jit", "jit-then-eager"}, "TracerBoolConversionError"),
+    ("sql2sqabs-prox-jit", lambda n: n.startswith("SquaredL2SquaredAbsLoss/"), {"prox"}, {"jit", "jit-then-eager", "history+jit"}, "TracerBoolConversionError"),
+    ("sql2loss-cg-prox-jit", lambda n: n.startswith("SquaredL2Loss(Matrix)/"), {"prox"}, {"jit", "jit-then-eager", "history+jit"}, "TracerBoolConversionError"),
 ]
 
 
@@ -674,15 +679,20 @@ def _modes_for(entry):
     if entry.has_jit:
         ms += ["ctor_jit", "ctor_nojit", "ctor_jit+jit", "ctor_jit+nojit"]
     if entry.hist is not None:
-        ms += ["history", "history+jit"]
+        ms += ["history", "history+jit", "sibling-history"]
     return ms
 
 
-def _modes_entry(ctx, entry):
+def _modes_entry(ctx, entry, bases=None):
     import cache_catalog as cc
 
+    # all fresh-eager values of the entry first (before any history stream of this entry runs in this process: the
+    # fresh-process reference runs the history stream FIRST, so a first-call-wins state outside the objects shows)
+    base_of = {call[0]: _eval_call(entry, call, "eager") for call in entry.calls}
     for call in entry.calls:
-        base = _eval_call(entry, call, "eager")
+        base = base_of[call[0]]
+        if bases is not None:
+            bases[(entry.name, call[0])] = (entry, base)
         ctx.count(f"modes:kind:{entry.kind}")
         if base[0] == "err":
             # the baseline itself raises: all other modes must raise as well (mode independence of rejection)
@@ -711,15 +721,11 @@ def _modes_entry(ctx, entry):
 
 
 def _catalog(ctx):
-    import cache_catalog as cc
+    import cache_fresh
 
-    dts = [np.float64, np.float32, np.complex64] if ctx.thorough else [np.float64, np.float32]
-    ents = []
-    ents += cc.functional_entries(ctx.rng, dts + ([np.complex64] if not ctx.thorough else []))
-    ents += cc.loss_entries(ctx.rng, dts)
-    ents += cc.operator_entries(ctx.rng, dts + ([np.complex64] if not ctx.thorough else []), heavy=True)
-    ents += cc.optimiser_entries(ctx.rng, heavy=ctx.thorough)
-    return ents
+    # arguments are drawn from a generator derived from VERIF_SEED only (not from the shared stream), so that the
+    # fresh-process reference rebuilds bit-identical entries
+    return cache_fresh.build_catalog(ctx.seed, ctx.thorough)
 
 
 def _corr_modes(ctx):
@@ -732,12 +738,62 @@ def _corr_modes(ctx):
                                                 "SquaredL2Loss(Matrix)/float64", "LinearOperator(eval_fn)/float64", "XRayTransform3D/float32")]
         heavy = [e for e in ents if ("TVNorm" in e.name or e.kind == "optimiser" or "XRayTransform2D" in e.name)]
         rest = [e for e in ents if e not in always and e not in heavy]
-        pick_h = [heavy[int(i)] for i in sorted(ctx.rng.choice(len(heavy), size=min(len(heavy), 6), replace=False))]
-        pick_r = [rest[int(i)] for i in sorted(ctx.rng.choice(len(rest), size=min(len(rest), 24), replace=False))]
+        pick_h = [heavy[int(i)] for i in sorted(ctx.rng.choice(len(heavy), size=min(len(heavy), 4), replace=False))]
+        pick_r = [rest[int(i)] for i in sorted(ctx.rng.choice(len(rest), size=min(len(rest), 18), replace=False))]
         ents = always + pick_h + pick_r
     ctx.extra["catalog_run"] = sorted(e.name for e in ents)
-    for e in ents:
-        _modes_entry(ctx, e)
+    # fresh-process reference (started now, collected after the in-process modes): the entries in REVERSED order, each
+    # with its history stream on a throw-away object before the probe
+    import cache_fresh
+
+    reqs = [[e.name, c[0]] for e in reversed(ents) for c in e.calls]
+    nproc = 2 if ctx.thorough else 1
+    handles = [cache_fresh.spawn_async(ctx.seed, ctx.thorough, reqs[i::nproc]) for i in range(nproc)]
+    bases = {}
+    try:
+        for e in ents:
+            _modes_entry(ctx, e, bases)
+    except BaseException:
+        for h in handles:
+            h.kill()
+        raise
+    fresh = []
+    for h in handles:
+        fresh += cache_fresh.collect(h)
+    _fresh_compare(ctx, bases, fresh)
+
+
+def _fresh_compare(ctx, bases, fresh):
+    """value in THIS process (fresh object, eager - after everything the check has done before) against the value in a
+    new interpreter whose first calls were the entry's history stream"""
+    import cache_catalog as cc
+    import cache_fresh
+
+    ctx.extra["fresh_process_calls"] = len(fresh)
+    for r in fresh:
+        key = (r["entry"], r["call"])
+        if r.get("missing") or key not in bases:
+            raise common.Infra(f"fresh-process reference does not know {key}")
+        entry, base = bases[key]
+        case = {"kind": "modes", "entry": r["entry"], "call": r["call"], "mode": "fresh-process"}
+        ctx.case(case, ("modes", r["entry"], r["call"], "fresh-process"))
+        ctx.count("modes:mode:fresh-process")
+        got = ("err", r["err"]) if "err" in r else ("ok", cache_fresh.decode(r["ok"]))
+        if base[0] != got[0]:
+            agree = False
+        elif base[0] == "err":
+            agree = True
+        else:
+            agree = cc.same(base[1], got[1], entry.rtol)
+        if not agree:
+            def oracle(c, base=base, got=got):
+                return {"entry": c["entry"], "call": c["call"],
+                        "this_process": base[1] if base[0] == "err" else [np.asarray(v).tolist() for v in base[1]],
+                        "new_interpreter_after_other_parameters": got[1] if got[0] == "err" else [np.asarray(v).tolist() for v in got[1]],
+                        "what": "the value of a call on a NEW object depends on what was called before in the process (state outside the object)"}
+
+            ctx.disagree("cache.modes.fresh-process", case, got[1] if got[0] == "err" else "value differs", base[1] if base[0] == "err" else "value in this process",
+                         oracle=oracle)
 
 
 # ---------------------------------------------------------------------------------------------
@@ -882,17 +938,62 @@ def _run_corpus(ctx, model):
             _ctx_case(ctx, model, c)
 
 
+def _import_all():
+    """everything the check touches is imported BEFORE the first picture of the module-level state"""
+    import scico.function  # noqa: F401
+    import scico.functional  # noqa: F401
+    import scico.linop  # noqa: F401
+    import scico.linop.xray  # noqa: F401
+    import scico.loss  # noqa: F401
+    import scico.operator  # noqa: F401
+    import scico.optimize  # noqa: F401
+    import scico.optimize.admm  # noqa: F401
+    import scico.optimize.pgm  # noqa: F401
+    import scico.random  # noqa: F401
+    import scico.solver  # noqa: F401
+
+
+def _global_state_check(ctx, before):
+    import cache_fresh
+
+    after = cache_fresh.module_state()
+    changed = cache_fresh.state_diff(before, after)
+    case = {"kind": "global-state", "locations_watched": len(before)}
+    ctx.case(case, ("global-state",))
+    ctx.count("mutation:global-state-locations", len(before))
+    ctx.extra["global_state_locations"] = len(before)
+    if changed:
+        ctx.disagree("cache.global-state", {**case, "changed": changed}, f"module-level state changed: {changed}", "unchanged",
+                     oracle=lambda c: {"changed": c["changed"], "what": "using scico objects left state behind at module / class / function level "
+                                       "(results can then depend on what was called before in the process)"})
+
+
 def correspond(ctx, model):
     common.setup_scico()
-    _corr_option_leak(ctx)
-    _run_corpus(ctx, model)
-    _corr_tv(ctx, model)
-    _corr_loss(ctx, model)
-    _corr_attach(ctx, model)
-    _corr_rng(ctx, model)
-    _corr_ctx(ctx, model)
-    _corr_mutation(ctx)
-    _corr_modes(ctx)
+    import cache_fresh
+
+    _import_all()
+    state0 = cache_fresh.module_state()
+    import time
+
+    secs = {}
+
+    def timed(name, fn, *a):
+        t0 = time.time()
+        fn(*a)
+        secs[name] = round(time.time() - t0, 1)
+
+    timed("option-leak", _corr_option_leak, ctx)
+    timed("corpus", _run_corpus, ctx, model)
+    timed("tv", _corr_tv, ctx, model)
+    timed("loss", _corr_loss, ctx, model)
+    timed("attach", _corr_attach, ctx, model)
+    timed("rng", _corr_rng, ctx, model)
+    timed("ctx", _corr_ctx, ctx, model)
+    timed("mutation", _corr_mutation, ctx)
+    timed("modes", _corr_modes, ctx)
+    _global_state_check(ctx, state0)
+    ctx.extra["stream_seconds"] = secs
 
 
 def findings(ctx, model):
